@@ -416,6 +416,11 @@ func (r *reader) initNodes(tr io.Reader) error {
 							}
 							found = true
 							ent.NumLink = readNumLink(b)
+							// The last entry wins (same as the memory store): drop the attributes
+							// written for the previous entry, writeAttr doesn't store zero values.
+							if err := resetAttr(b); err != nil {
+								return fmt.Errorf("failed to reset attr of %d(%q): %w", id, ent.Name, err)
+							}
 						}
 					}
 					if !found {
